@@ -352,7 +352,8 @@ C01_NotBeforeSubmit == \A j \in Jobs : enters[j] > 0 => sub[j] # "none"
 C01_NoCancelled == E.ev = "enter" /\ E.job \in Jobs => ~closeNil[E.job]
 ExpectedId(j) == IF BatchOf(j) # 0 THEN "g:id-" \o ToString(j) ELSE "id-" \o ToString(j)
 C01_Identity == E.ev = "enter" /\ E.job \in Jobs =>
-                   IF hdr.idgen /\ BatchOf(E.job) = 0 /\ ~IsAdapterQ(QOf(E.job)) THEN E.idgen ELSE E.id = ExpectedId(E.job)
+                   \* (E.idgen: an ID of the worker's generator that no other job of the episode carries)
+                   IF hdr.idgen /\ (BatchOf(E.job) = 0 \/ hdr.wk = "plain") /\ ~IsAdapterQ(QOf(E.job)) THEN E.idgen ELSE E.id = ExpectedId(E.job)
 C07_Identity == C01_Identity
 C01_AtRest == RunningAtRest => \A j \in Jobs : Accepted(j) /\ ~Excused(j) => enters[j] = 1 /\ exits[j] = 1
 
